@@ -723,6 +723,6 @@ def _shard(arg):
 
 
 def run(ctx):
-    n = 300 if ctx.quick else 8000
+    n = 900 if ctx.quick else 8000       # (900: the dimensions added over the rounds had diluted earlier catches at 300)
     drivers = ["tridonic"] * 8 + ["luba"] * 3 + ["sci"] * 3 + ["hasseb"] * 2
     ctx.pmap(_shard, [(drivers[k], ctx.seed * 1000 + k, n) for k in range(16)])
